@@ -2,10 +2,71 @@
 // ---- appended by /verif/native/oracle.py (scratch copy only) ----
 #[cfg(test)]
 pub(crate) mod verif_probe {
-    #[allow(unused_imports)]
     use super::*;
-    use serde_json::Value;
-    pub(crate) fn handle(_op: &str, _v: &Value) -> Option<Value> {
-        None
+    use serde_json::{json, Value};
+
+    fn role(s: &str) -> Role { match s { "primary" => Role::Primary, "replica" => Role::Replica, _ => Role::Mirror } }
+
+    pub(crate) fn build_pool(v: &Value) -> Pool {
+        let mut p = Pool::default();
+        p.shards.clear();
+        p.users.clear();
+        if let Some(x) = v.get("default_role").and_then(|x| x.as_str()) { p.default_role = x.to_string(); }
+        if let Some(x) = v.get("query_parser_enabled").and_then(|x| x.as_bool()) { p.query_parser_enabled = x; }
+        if let Some(x) = v.get("query_parser_read_write_splitting").and_then(|x| x.as_bool()) { p.query_parser_read_write_splitting = x; }
+        if v.get("plugins").and_then(|x| x.as_bool()) == Some(true) { p.plugins = Some(Plugins::default()); }
+        if let Some(x) = v.get("automatic_sharding_key").and_then(|x| x.as_str()) { p.automatic_sharding_key = Some(x.to_string()); }
+        if let Some(x) = v.get("sharding_key_regex").and_then(|x| x.as_str()) { p.sharding_key_regex = Some(x.to_string()); }
+        if let Some(x) = v.get("shard_id_regex").and_then(|x| x.as_str()) { p.shard_id_regex = Some(x.to_string()); }
+        if let Some(x) = v.get("default_shard").and_then(|x| x.as_str()) {
+            p.default_shard = match x {
+                "random" => DefaultShard::Random,
+                "random_healthy" => DefaultShard::RandomHealthy,
+                s => DefaultShard::Shard(s.trim_start_matches("shard_").parse::<usize>().unwrap()),
+            };
+        }
+        if let Some(x) = v.get("db_activity_based_routing").and_then(|x| x.as_bool()) { p.db_activity_based_routing = x; }
+        if let Some(x) = v.get("db_activity_init_delay").and_then(|x| x.as_u64()) { p.db_activity_init_delay = x; }
+        if let Some(x) = v.get("db_activity_ttl").and_then(|x| x.as_u64()) { p.db_activity_ttl = x; }
+        if let Some(x) = v.get("table_mutation_cache_ms_ttl").and_then(|x| x.as_u64()) { p.table_mutation_cache_ms_ttl = x; }
+        if let Some(sh) = v.get("shards").and_then(|x| x.as_array()) {
+            for s in sh {
+                let id = s["id"].as_str().unwrap().to_string();
+                let mut shard = Shard { database: "db".to_string(), mirrors: None, servers: vec![] };
+                for srv in s["servers"].as_array().unwrap() {
+                    shard.servers.push(ServerConfig { host: srv[0].as_str().unwrap().to_string(), port: srv[1].as_u64().unwrap() as u16, role: role(srv[2].as_str().unwrap()) });
+                }
+                p.shards.insert(id, shard);
+            }
+        }
+        if let Some(us) = v.get("users").and_then(|x| x.as_array()) {
+            for (i, u) in us.iter().enumerate() {
+                let mut user = User::default();
+                user.password = u.get("password").and_then(|x| x.as_str()).map(|x| x.to_string());
+                user.pool_size = u["pool_size"].as_u64().unwrap() as u32;
+                user.min_pool_size = u.get("min_pool_size").and_then(|x| x.as_u64()).map(|x| x as u32);
+                p.users.insert(i.to_string(), user);
+            }
+        }
+        p
+    }
+
+    pub(crate) fn handle(op: &str, v: &Value) -> Option<Value> {
+        match op {
+            "pool_validate" => {
+                let mut p = build_pool(&v["pool"]);
+                Some(json!({"ok": p.validate().is_ok()}))
+            }
+            "shard_validate" => {
+                let p = build_pool(&json!({"shards": [v["shard"].clone()]}));
+                let s = p.shards.values().next().unwrap();
+                Some(json!({"ok": s.validate().is_ok()}))
+            }
+            "pool_default_validate" => {
+                let mut p = Pool::default();
+                Some(json!({"ok": p.validate().is_ok(), "shard_ids": p.shards.keys().cloned().collect::<Vec<String>>()}))
+            }
+            _ => None,
+        }
     }
 }
